@@ -980,14 +980,12 @@ func execLim(op string, a []string) vlib.Res {
 		for _, x := range ratelimit.VerifLimiterKeys(ls) {
 			before[x] = true
 		}
-		lenBefore := ls.Len()
 		l := ls.Get(k)
 		after := map[uint64]bool{}
 		for _, x := range ratelimit.VerifLimiterKeys(ls) {
 			after[x] = true
 		}
 		vict := gone(before, after)
-		wasNew := !lRef[k]
 		lRef[k] = true
 		for _, w := range vict {
 			if w != k {
@@ -1002,8 +1000,6 @@ func execLim(op string, a []string) vlib.Res {
 			or = fail("lim/get/evicted-own-key", "key=%d is not in the store right after Get (victims %s)", k, joinKeys(vict))
 		case len(vict) > 1:
 			or = fail("lim/get/multiple-victims", "one Get evicted %s", joinKeys(vict))
-		case len(vict) == 1 && (!wasNew || lenBefore < lMax):
-			or = fail("lim/get/evicted-below-capacity", "victim=%d although key new=%v and Len() before=%d < max=%d", vict[0], wasNew, lenBefore, lMax)
 		case ls.Len() > max(lMax, 1):
 			or = fail("lim/get/over-capacity", "Len()=%d max=%d", ls.Len(), lMax)
 		}
